@@ -15,7 +15,7 @@ Print Assumptions C05_slot_ranges.
 
 (* the char-infos of the input: characters in order with their code-unit offsets, one per character consumed (canonical text,
    any nChars) — from the text-reading model shared with C11 / C12 *)
-Theorem C05_cinfo_chars_utf8 : forall us n pos rest, Forall (fun u => (u < 0x110000)%N /\ u <> 0%N) us ->
+Theorem C05_cinfo_chars_utf8 : forall us n pos rest, Forall (fun u => ((u < 0x110000)%N /\ ~ (0xD800 <= u <= 0xDFFF)%N) /\ u <> 0%N) us ->
   read_text get8 n (enc_all put8 us ++ 0%N :: rest) pos = Some (firstn n (combine us (bases put8 pos us))).
 Proof. exact (read_text_exact get8 put8 valid8 get8_nul_zero get8_put8). Qed.
 Print Assumptions C05_cinfo_chars_utf8.
